@@ -64,6 +64,12 @@ func main() {
 			replay = next()
 		case "--quiet":
 			quiet = true
+		case "--prepare-only": // warm the build cache (setup)
+			if chk.Prepare != nil {
+				chk.Prepare(tier)
+			}
+			os.RemoveAll(mc.Scratch())
+			return
 		default:
 			mc.HarnessError("unknown argument %s", a[i])
 		}
